@@ -1,0 +1,10 @@
+//go:build !verif
+// +build !verif
+
+package main
+
+// verifTrace and verifPointIO are verification hooks; they do nothing unless
+// the command is built with the `verif` tag.
+func verifTrace(event string, kv ...interface{}) {}
+
+func verifPointIO(name string) {}
